@@ -2,7 +2,8 @@
 // API is safe under concurrent use) with generated racing programs on shared
 // spans, with and without Go execution tracing, under the race detector.
 //
-// Two searches:
+// Three searches (the third, shared_args, is described in
+// shared_args_test.go):
 //
 //   - span_concurrent: 2..8 goroutines apply generated sequences of End,
 //     End(WithTimestamp), tagged SetAttributes batches, AddEvent, AddLink,
@@ -63,12 +64,41 @@
 //     not be counted ("child counts are exact"; ChildSpanCount is documented
 //     as "the count of spans that consider the span a direct parent").
 //
+// Dimensions added in round 9:
+//
+//   - LIFE CYCLE of the provider as part of the program. span_concurrent: one
+//     case in three holds 1..2 TracerProvider.Shutdown ops (plain or with a
+//     cancelled context; the first or the second provider) at generated places
+//     of generated goroutines, i.e. before, while and after the spans that
+//     were started earlier End; the re-entrant processor may call Shutdown
+//     from inside OnEnd (ReEnd bit 32); ForceFlush on either provider, also
+//     with a cancelled context. end_race: one case in four has a further
+//     goroutine that calls Shutdown while span k is being ended by the racing
+//     goroutines. What is decided: a span ALL of whose End calls had returned
+//     before Shutdown was first issued is delivered exactly once; a span with
+//     an End still running or not yet issued by then at most once (Shutdown:
+//     "all registered span processors are shut down ... After Shutdown is
+//     called, all methods are no-ops"; the statement speaks of registered
+//     processors - nothing says whether such a span still reaches them).
+//     Whatever the provider's state: IsRecording() is false once End has
+//     returned, and a span on which End was called has an end time, one that
+//     an End call supplied (kinds recording_after_end, no_end_time,
+//     end_time_invented), also when it was not delivered.
+//   - the HOSTILE / SHARED CALLER: sub-check shared_args, see
+//     shared_args_test.go.
+//
 // Defects of the pinned tree met by these dimensions:
+//
+//   - repaired (/repo 257a3ca, regression replay
+//     replays/regress/C10/recorderror_lent_options_race.json): RecordError
+//     appended to the option slice it was given (shared_args_test.go,
+//     lendErrorOptions).
 //
 //   - repaired (/repo 53f7114, regression replay
 //     replays/regress/C10/new_root_counted_as_child.json): tracer.Start bumped
 //     the child counter of the span found in the context before it looked at
 //     WithNewRoot; violation kind child_count_includes_new_root.
+//
 //   - outside the quantified domain (the quantifier lists End, SetAttributes,
 //     AddEvent, AddLink, SetStatus, SetName, RecordError, IsRecording and
 //     child Start, not the ReadOnlySpan getters), observed only:
@@ -106,13 +136,13 @@ import (
 
 // Op is one step of one goroutine.
 type Op struct {
-	K  string `json:"k"`            // endpanic read end endts attrs event link error status name isrec child tracer regproc unregproc flush
+	K  string `json:"k"`            // endpanic read end endts attrs event link error status name isrec child tracer regproc unregproc flush shutdown
 	S  int    `json:"s"`            // span index
 	N  int    `json:"n,omitempty"`  // number of attributes (attrs/event/link)
 	P  int    `json:"p,omitempty"`  // perturbation before the op
 	TS int64  `json:"ts,omitempty"` // endts: offset in ms relative to the span's start time (signed: an end time may lie before the start)
 	NS int64  `json:"ns,omitempty"` // endts: further offset in ns (added to TS)
-	C  int    `json:"c,omitempty"`  // status: code 1 Error, 2 Ok; child: 1 = the sampler drops this child, 2 = record-only child
+	C  int    `json:"c,omitempty"`  // status: code 1 Error, 2 Ok; child: 1 = the sampler drops this child, 2 = record-only child; shutdown: 1 = the SECOND provider; flush: 1 = the second provider
 }
 
 // Case is one generated program.
@@ -145,7 +175,8 @@ type Case struct {
 	// the span that is being ended (the ReadWriteSpan it kept from OnStart) and
 	// into the provider. Bits: 1 End again, 2 SetAttributes+AddEvent, 4
 	// IsRecording+SetName+SetStatus, 8 start (and end) a child of it, 16
-	// ForceFlush+Tracer.
+	// ForceFlush+Tracer, 32 TracerProvider.Shutdown (the provider is shut down
+	// from inside the first OnEnd that reaches this processor).
 	ReEnd int `json:"re_end,omitempty"`
 }
 
@@ -215,6 +246,9 @@ func gen(t *rapid.T) Case {
 	c.ReLogger = rapid.IntRange(0, 3).Draw(t, "reentrant_logger") == 0
 	if rapid.IntRange(0, 2).Draw(t, "reentrant_on_end") == 0 {
 		c.ReEnd = rapid.IntRange(1, 31).Draw(t, "reentrant_on_end_actions")
+		if rapid.IntRange(0, 5).Draw(t, "reentrant_shutdown") == 0 {
+			c.ReEnd |= 32
+		}
 	}
 	if c.StartShare = rapid.IntRange(0, 2).Draw(t, "start_share") == 0; c.StartShare {
 		kinds = append(kinds, "racychild", "racychild", "racychild")
@@ -243,12 +277,31 @@ func gen(t *rapid.T) Case {
 				}
 			case "endpanic":
 				op.C = rapid.IntRange(0, 1).Draw(t, "stack_trace")
+			case "flush":
+				op.C = rapid.SampledFrom([]int{0, 0, 1}).Draw(t, "flush_provider")
+				op.N = rapid.SampledFrom([]int{0, 0, 1}).Draw(t, "flush_ctx_cancelled")
 			case "racychild":
 				op.C = rapid.IntRange(0, 3).Draw(t, "sharer_action")
 			}
 			ops = append(ops, op)
 		}
 		c.Progs = append(c.Progs, ops)
+	}
+	// LIFE CYCLE of the provider as part of the program (one case in three):
+	// 1..2 TracerProvider.Shutdown calls (N=1: with a context that is already
+	// cancelled; C=1: the second provider) at generated places of generated
+	// goroutines, i.e. before, while and after the spans started earlier End.
+	if rapid.IntRange(0, 2).Draw(t, "life_cycle") == 0 {
+		for k, n := 0, rapid.IntRange(1, 2).Draw(t, "shutdowns"); k < n; k++ {
+			g := rapid.IntRange(0, len(c.Progs)-1).Draw(t, "shutdown_goroutine")
+			at := rapid.IntRange(0, len(c.Progs[g])).Draw(t, "shutdown_at")
+			op := Op{K: "shutdown", P: rapid.IntRange(0, 3).Draw(t, "p"),
+				C: rapid.SampledFrom([]int{0, 0, 0, 1}).Draw(t, "shutdown_provider"),
+				N: rapid.SampledFrom([]int{0, 0, 1}).Draw(t, "shutdown_ctx_cancelled")}
+			ops := append([]Op{}, c.Progs[g][:at]...)
+			ops = append(ops, op)
+			c.Progs[g] = append(ops, c.Progs[g][at:]...)
+		}
 	}
 	c.Runs = 3
 	return c
@@ -450,6 +503,7 @@ type opRec struct {
 	isRec      bool         // isrec: what IsRecording() answered
 	recovered  string       // endpanic: what the caller recovered
 	child      trace.SpanID // child / racychild: the span the op started
+	fin        int64        // when the whole op was over (child ops: after the child's End returned)
 	// slowerror: clock instants inside the error's Error method, which the SDK
 	// calls while it holds the span's lock (0 = never called)
 	errEnter, errExit int64
@@ -541,10 +595,13 @@ func (p *shareProcessor) wait(id trace.SpanID) {
 type reProcessor struct {
 	mode int
 	tp   *sdktrace.TracerProvider
-	mu   sync.Mutex
-	kept map[trace.SpanID]sdktrace.ReadWriteSpan
-	seen map[trace.SpanID]bool
-	n    atomic.Int64
+	// mode&32: when (harness clock) the Shutdown call made from OnEnd was issued
+	clock  *vk.Clock
+	shutAt atomic.Int64
+	mu     sync.Mutex
+	kept   map[trace.SpanID]sdktrace.ReadWriteSpan
+	seen   map[trace.SpanID]bool
+	n      atomic.Int64
 }
 
 func (p *reProcessor) OnStart(_ context.Context, s sdktrace.ReadWriteSpan) {
@@ -589,6 +646,9 @@ func (p *reProcessor) OnEnd(s sdktrace.ReadOnlySpan) {
 	if p.mode&16 != 0 {
 		_ = p.tp.ForceFlush(context.Background())
 		_ = p.tp.Tracer("c10.reentrant.2")
+	}
+	if p.mode&32 != 0 && p.shutAt.CompareAndSwap(0, p.clock.Tick()) {
+		_ = p.tp.Shutdown(context.Background())
 	}
 }
 func (p *reProcessor) Shutdown(context.Context) error   { return nil }
@@ -643,7 +703,7 @@ func runOnce(c Case) ([]vk.Violation, map[string]bool) {
 	// span's child count is about the spans that consider it their parent,
 	// whatever the sampler answered for them
 	opts := []sdktrace.TracerProviderOption{sdktrace.WithRawSpanLimits(unlimited()), sdktrace.WithSampler(nameSampler{})}
-	rep := &reProcessor{mode: c.ReEnd, kept: map[trace.SpanID]sdktrace.ReadWriteSpan{}, seen: map[trace.SpanID]bool{}}
+	rep := &reProcessor{mode: c.ReEnd, clock: clock, kept: map[trace.SpanID]sdktrace.ReadWriteSpan{}, seen: map[trace.SpanID]bool{}}
 	for i := range procs {
 		procs[i] = &recProcessor{clock: clock, ends: map[trace.SpanID][]delivery{}}
 		opts = append(opts, sdktrace.WithSpanProcessor(procs[i]))
@@ -830,11 +890,26 @@ func runOnce(c Case) ([]vk.Violation, map[string]bool) {
 				} else {
 					tp.UnregisterSpanProcessor(&recProcessor{clock: clock, ends: map[trace.SpanID][]delivery{}}) // never registered
 				}
-			case "flush":
-				_ = tp.ForceFlush(context.Background())
+			case "flush", "shutdown":
+				ctx := context.Background()
+				if op.N == 1 {
+					cctx, cancel := context.WithCancel(ctx)
+					cancel()
+					ctx = cctx
+				}
+				p := tp
+				if op.C == 1 {
+					p = tp2
+				}
+				if op.K == "flush" {
+					_ = p.ForceFlush(ctx)
+				} else {
+					_ = p.Shutdown(ctx)
+				}
 			}
+			r.fin = clock.Tick()
 			if r.end == 0 {
-				r.end = clock.Tick()
+				r.end = r.fin
 			}
 			rmu.Lock()
 			recs = append(recs, r)
@@ -843,6 +918,7 @@ func runOnce(c Case) ([]vk.Violation, map[string]bool) {
 	})
 	t1 := time.Now()
 	_ = tp.Shutdown(context.Background())
+	_ = tp2.Shutdown(context.Background())
 	// processors that kept the spans they saw in OnStart look at them now
 	for _, p := range procs {
 		p.inspect()
@@ -851,6 +927,31 @@ func runOnce(c Case) ([]vk.Violation, map[string]bool) {
 
 	// ---- oracle ----
 	const never = int64(1) << 62
+	// life cycle: when the first Shutdown of each provider was ISSUED by the
+	// program (an op, or the re-entrant processor from inside OnEnd). What is
+	// decided about delivery: a span all of whose End calls had returned before
+	// that instant was ended while every processor was registered and the
+	// provider alive - exactly once, as ever. A span with an End call that was
+	// still running or not yet issued by then may or may not reach the
+	// processors (Shutdown: "all registered span processors are shut down ...
+	// After Shutdown is called, all methods are no-ops"; the statement speaks
+	// of REGISTERED processors): at most once. Everything else the statement
+	// says about End holds whatever the provider's state: not recording once
+	// End has returned, one end time, the one an End call supplied.
+	shutIssue := [2]int64{never, never}
+	for _, r := range recs {
+		if r.op.K == "shutdown" && r.start < shutIssue[r.op.C&1] {
+			shutIssue[r.op.C&1] = r.start
+		}
+	}
+	if at := rep.shutAt.Load(); at != 0 {
+		classes["Shutdown_called_from_inside_OnEnd"] = true
+		if at < shutIssue[0] {
+			shutIssue[0] = at
+		}
+	}
+	mark(shutIssue[0] != never, "provider_shut_down_by_the_program")
+	mark(shutIssue[1] != never, "second_provider_shut_down_by_the_program")
 	firstEndIssue := make([]int64, c.Spans)
 	firstEndReturn := make([]int64, c.Spans)
 	lastEndReturn := make([]int64, c.Spans) // by then the End call that delivered the span has returned too
@@ -913,8 +1014,18 @@ func runOnce(c Case) ([]vk.Violation, map[string]bool) {
 			if enders[s] > 0 {
 				want = 1
 			}
-			if len(ds) != want {
-				bad("delivery_count", "span %d was delivered %d time(s) to processor %d; End was called %d time(s) by the program", s, len(ds), pi, enders[s])
+			if settled := lastEndReturn[s] < shutIssue[0]; settled || want == 0 {
+				if len(ds) != want {
+					bad("delivery_count", "span %d was delivered %d time(s) to processor %d; End was called %d time(s) by the program (the last of them returned at t=%d, TracerProvider.Shutdown was first issued at t=%d; %d = never)", s, len(ds), pi, enders[s], lastEndReturn[s], shutIssue[0], never)
+				}
+				mark(want == 1 && shutIssue[0] != never, "span_fully_ended_before_Shutdown_was_issued")
+			} else {
+				if len(ds) > 1 {
+					bad("delivery_count", "span %d was delivered %d times to processor %d (End called %d time(s), some of them not over when TracerProvider.Shutdown was issued at t=%d)", s, len(ds), pi, enders[s], shutIssue[0])
+				}
+				mark(firstEndIssue[s] > shutIssue[0], "every_End_of_a_span_issued_after_Shutdown_was")
+				mark(firstEndIssue[s] < shutIssue[0], "Shutdown_issued_while_a_span_was_being_ended")
+				mark(len(ds) == 0, "span_ended_around_Shutdown_not_delivered")
 			}
 			for di := range ds {
 				d := &ds[di]
@@ -966,10 +1077,10 @@ func runOnce(c Case) ([]vk.Violation, map[string]bool) {
 			}
 			// ... and a processor whose Unregister had RETURNED by then was no
 			// longer registered when the span ended: it must not get it
-			if ue, done := unregEnd[x]; done && enders[s] > 0 && ue < earliest && n != 0 {
+			if ue, done := unregEnd[x]; done && enders[s] > 0 && ue < earliest && ue < shutIssue[0] && n != 0 {
 				bad("unregistered_processor_got_span", "span %d was delivered %d time(s) to extra processor %d although its UnregisterSpanProcessor call had returned (t=%d) before any End of the span could have taken effect (t=%d)", s, n, xi, ue, earliest)
 			}
-			if ok && enders[s] > 0 && re < earliest && (!unreg || us > lastEndReturn[s]) && n != 1 {
+			if ok && enders[s] > 0 && re < earliest && (!unreg || us > lastEndReturn[s]) && lastEndReturn[s] < shutIssue[0] && n != 1 {
 				bad("registered_processor_missed_span", "span %d was delivered %d time(s) to extra processor %d although its RegisterSpanProcessor call had returned (t=%d) before any End of the span could have taken effect (t=%d: first End issued at t=%d, held up behind a slow RecordError if later) and it was not unregistered before every End call had returned (t=%d)", s, n, xi, re, earliest, firstEndIssue[s], lastEndReturn[s])
 			}
 			if ok && enders[s] > 0 && re < firstEndIssue[s] {
@@ -977,6 +1088,16 @@ func runOnce(c Case) ([]vk.Violation, map[string]bool) {
 			}
 		}
 		if ref == nil {
+			// not delivered (no End, or ended around / after Shutdown). "Ends
+			// exactly once, with a single end time": when every End call has
+			// returned the span has an end time, one that an End call supplied
+			if enders[s] > 0 {
+				if live := spans[s].(sdktrace.ReadOnlySpan).EndTime(); live.IsZero() {
+					bad("no_end_time", "span %d (start %s): End was called %d time(s) and every call has returned (first End issued at t=%d; TracerProvider.Shutdown first issued at t=%d), yet the span reports no end time: EndTime() is zero", s, fmtT(starts[s]), enders[s], firstEndIssue[s], shutIssue[0])
+				} else if why := endJudge(live, endTimes[s], plainEnd[s], t0, t1); why != "" {
+					bad("end_time_invented", "span %d (start %s), not delivered (ended around Shutdown), %s", s, fmtT(starts[s]), why)
+				}
+			}
 			continue
 		}
 		snap := ref.snap
@@ -1163,6 +1284,14 @@ func runOnce(c Case) ([]vk.Violation, map[string]bool) {
 			p.mu.Lock()
 			n := len(p.ends[r.child])
 			p.mu.Unlock()
+			// the child's provider was alive during the whole op, or else: at most
+			prov := 0
+			if pi == len(procs) {
+				prov = 1
+			}
+			if r.fin > shutIssue[prov] && n <= w {
+				continue
+			}
 			if n != w {
 				bad("child_delivery_count", "%s %s of span %d (decision %d, second provider %v) was delivered %d time(s) to processor %d, expected %d", r.op.K, r.tag, r.op.S, r.op.C, other, n, pi, w)
 			}
@@ -1223,9 +1352,9 @@ func TestSpanConcurrent(t *testing.T) {
 		Property: "C10", Check: "span_concurrent",
 		Rule: "2..8 goroutines applying generated sequences of End / End(WithTimestamp: signed offsets from before to after the start) / End while panicking / all getters / tagged SetAttributes batches / AddEvent / AddLink / RecordError / SetStatus / SetName / IsRecording / child Start / Tracer / Register+UnregisterSpanProcessor / ForceFlush to 1..3 shared spans (start: explicit past, pre-1970, future, or wall clock) with 1..3 recording processors and optionally a processor whose OnEnd re-enters the span and the provider, children also with WithNewRoot, runtime/trace on or off, each program run 3 times under -race; " +
 			"non-trivial = at least two goroutines call End on the same span; distinct = distinct case encodings",
-		Quick: 1500, Thorough: 20000,
+		Quick: 1200, Thorough: 20000,
 		Gen: gen, Run: run, Repeat: 300,
-		Known: map[string]func(Case, vk.Violation) bool{},
+		Known:       map[string]func(Case, vk.Violation) bool{},
 		CaseTimeout: 60 * time.Second,
 	})
 }
@@ -1254,6 +1383,12 @@ type RaceCase struct {
 	StartAt   int64   `json:"start_at,omitempty"`
 	StartWall bool    `json:"start_wall,omitempty"`
 	TSOff     []int64 `json:"ts_off,omitempty"`
+	// ShutdownAt k > 0: one more goroutine calls TracerProvider.Shutdown when
+	// the enders have gathered at span k-1, i.e. while that span is being ended
+	// (ShutdownP: its perturbation before the call); spans k.. are ended on a
+	// provider that is shutting / shut down. 0 = the provider outlives the race.
+	ShutdownAt int `json:"shutdown_at,omitempty"`
+	ShutdownP  int `json:"shutdown_p,omitempty"`
 }
 
 func genRace(t *rapid.T) RaceCase {
@@ -1276,6 +1411,10 @@ func genRace(t *rapid.T) RaceCase {
 	for g := 0; g < c.Goroutines; g++ {
 		ms, ns := genEndOffset(t)
 		c.TSOff = append(c.TSOff, ms*1_000_000+ns)
+	}
+	if rapid.IntRange(0, 3).Draw(t, "life_cycle") == 0 {
+		c.ShutdownAt = rapid.IntRange(1, c.Spans).Draw(t, "shutdown_at")
+		c.ShutdownP = rapid.IntRange(0, 3).Draw(t, "shutdown_p")
 	}
 	return c
 }
@@ -1353,6 +1492,23 @@ func runRace(c RaceCase) ([]vk.Violation, vk.Info) {
 			beforeStart = true
 		}
 	}
+	// per span: when (harness clock) the last of the racing End calls returned
+	lastReturn := make([]atomic.Int64, c.Spans)
+	const never = int64(1) << 62
+	shutIssue := never
+	var swg sync.WaitGroup
+	if k := c.ShutdownAt; k > 0 && k <= c.Spans {
+		swg.Add(1)
+		go func() {
+			defer swg.Done()
+			for arrived[k-1].Load() < int32(c.Goroutines) {
+				runtime.Gosched()
+			}
+			vk.Perturb(c.ShutdownP)
+			shutIssue = clock.Tick()
+			_ = tp.Shutdown(context.Background())
+		}()
+	}
 	vk.Parallel(c.Goroutines, func(g int) {
 		for i := range spans {
 			arrived[i].Add(1)
@@ -1368,15 +1524,24 @@ func runRace(c RaceCase) ([]vk.Violation, vk.Info) {
 			if spans[i].IsRecording() {
 				stillRecording.Add(1)
 			}
+			at := clock.Tick()
+			for {
+				old := lastReturn[i].Load()
+				if old >= at || lastReturn[i].CompareAndSwap(old, at) {
+					break
+				}
+			}
 		}
 	})
 	stop.Store(true)
 	mwg.Wait()
+	swg.Wait()
 	t1 := time.Now()
 	_ = tp.Shutdown(context.Background())
 	if n := stillRecording.Load(); n > 0 {
 		bad("recording_after_end", "IsRecording() was true %d time(s) right after End returned", n)
 	}
+	notDelivered := 0
 	for i, sp := range spans {
 		sid := sp.SpanContext().SpanID()
 		var first *delivery
@@ -1384,8 +1549,12 @@ func runRace(c RaceCase) ([]vk.Violation, vk.Info) {
 			p.mu.Lock()
 			ds := p.ends[sid]
 			p.mu.Unlock()
-			if len(ds) != 1 {
-				bad("delivery_count", "span %d was delivered %d time(s) to processor %d although %d goroutines raced on End", i, len(ds), pi, c.Goroutines)
+			// life cycle: a span whose End calls had all returned before Shutdown
+			// was issued: exactly once; one ended around / after it: at most once
+			if settled := lastReturn[i].Load() < shutIssue; settled && len(ds) != 1 || len(ds) > 1 {
+				bad("delivery_count", "span %d was delivered %d time(s) to processor %d although %d goroutines raced on End (the last End returned at t=%d, TracerProvider.Shutdown was issued at t=%d; %d = never)", i, len(ds), pi, c.Goroutines, lastReturn[i].Load(), shutIssue, never)
+			} else if !settled && len(ds) == 0 {
+				notDelivered++
 			}
 			for di := range ds {
 				d := &ds[di]
@@ -1402,9 +1571,6 @@ func runRace(c RaceCase) ([]vk.Violation, vk.Info) {
 				}
 			}
 		}
-		if first == nil {
-			continue
-		}
 		// a single end time: the one that one of the racing End calls supplied,
 		// which is also what the span itself reports afterwards
 		var offered []time.Time
@@ -1412,6 +1578,16 @@ func runRace(c RaceCase) ([]vk.Violation, vk.Info) {
 			if c.WithTS[g] == 1 {
 				offered = append(offered, starts[i].Add(tsOff(g)))
 			}
+		}
+		if first == nil {
+			// ended around / after Shutdown and not delivered: it has ended all
+			// the same, with an end time an End call supplied
+			if live := sp.(sdktrace.ReadOnlySpan).EndTime(); live.IsZero() {
+				bad("no_end_time", "span %d (start %s): %d End calls have returned (TracerProvider.Shutdown issued at t=%d, the last End returned at t=%d), yet the span reports no end time: EndTime() is zero", i, fmtT(starts[i]), c.Goroutines, shutIssue, lastReturn[i].Load())
+			} else if why := endJudge(live, offered, plain, t0, t1); why != "" {
+				bad("end_time_invented", "span %d (start %s), not delivered (ended around Shutdown), %s", i, fmtT(starts[i]), why)
+			}
+			continue
 		}
 		if why := endJudge(first.snap.end, offered, plain, t0, t1); why != "" {
 			bad("end_time_invented", "span %d (start %s) %s", i, fmtT(starts[i]), why)
@@ -1429,6 +1605,8 @@ func runRace(c RaceCase) ([]vk.Violation, vk.Info) {
 	info.ClassIf(c.Mutators > 0, "concurrent_mutators")
 	info.ClassIf(c.AttrLimit > 0, "spans_full_at_attribute_limit")
 	info.ClassIf(c.Goroutines >= 4, "four_or_more_enders")
+	info.ClassIf(shutIssue != never, "provider_shut_down_while_the_spans_end")
+	info.ClassIf(notDelivered > 0, "spans_ended_around_Shutdown_not_delivered")
 	return vs, info
 }
 
@@ -1436,7 +1614,7 @@ func TestEndRace(t *testing.T) {
 	vk.Run(t, vk.Spec[RaceCase]{
 		Property: "C10", Check: "end_race",
 		Rule:  "G=2..6 goroutines all call End (plain or with a goroutine-specific timestamp: signed offset from the start, which is explicit past/future or the wall clock) on each of N=20..60 shared spans, released together span by span through a spin barrier, 0..2 goroutines mutating the spans meanwhile, runtime/trace mostly on; every case is non-trivial (N G-way End races); distinct = distinct parameter tuples",
-		Quick: 250, Thorough: 4000,
+		Quick: 220, Thorough: 4000,
 		Gen: genRace, Run: runRace, Repeat: 200,
 		CaseTimeout: 60 * time.Second,
 	})
